@@ -2,6 +2,7 @@
 package c01
 
 import (
+	"bytes"
 	"encoding/binary"
 	"fmt"
 	"testing"
@@ -37,12 +38,30 @@ func runType(t *testing.T, typ uint16, quick, thorough int) {
 			s.Class("batch-crossing-varint-boundary")
 		}
 		wire := append([]byte{}, sess.RequestBytes...)
+		// In a third of the runs the issuer first sees a few malformed requests and the client a few malformed
+		// responses (results ignored): error paths must not leave anything behind that breaks the honest run.
+		noise := gen.Uniform(t, 3, "malformedTrafficFirst") == 0
+		if noise {
+			s.Class("after-malformed-traffic")
+			for i := 0; i < 3; i++ {
+				bad, _ := gen.Mutate(t, wire, nil, []int{0, 1, 2, 3})
+				rt.GuardLite(func() { _, _ = sess.IssueWire(bad) })
+			}
+		}
 		resp, err := sess.IssueWire(wire)
 		if err != nil {
 			rt.Fail(t, fmt.Sprintf("C01/%s/issue", gen.TypeName(typ)), "issuer failed on an honest request that crossed the wire: %v (request %s)", err, rt.Hex(wire))
 			return
 		}
 		respWire := append([]byte{}, resp...)
+		if noise {
+			for i := 0; i < 3; i++ {
+				bad, _ := gen.Mutate(t, respWire, nil, []int{0, 1, 2, 3})
+				if !bytes.Equal(bad, respWire) {
+					rt.GuardLite(func() { _, _ = sess.Finalize(bad) })
+				}
+			}
+		}
 		toks, err := sess.Finalize(respWire)
 		if err != nil {
 			rt.Fail(t, fmt.Sprintf("C01/%s/finalize", gen.TypeName(typ)), "client rejected the honest response: %v", err)
